@@ -471,7 +471,7 @@ class VAMMessage(CooperativeAwarenessMessage):
         if "track" in tpv.keys():
             self.vam["vam"]["vamParameters"]["vruHighFrequencyContainer"]["heading"][
                 "value"
-            ] = int(tpv["track"]*10)
+            ] = int(tpv["track"]*10) % 3600
         if "epd" in tpv.keys():
             self.vam["vam"]["vamParameters"]["vruHighFrequencyContainer"]["heading"][
                 "confidence"
